@@ -128,7 +128,7 @@ PROPS = {
     },
     "C19": {
         "module": "Cdecao.Props.C19",
-        "extra_modules": ["Cdecao.Props.EngineTie", "Cdecao.Props.PanicTie"],
+        "extra_modules": ["Cdecao.Props.EngineTie", "Cdecao.Props.PanicTie", "Cdecao.Props.Main"],
         "theorems": ["Props.C19_no_hang", "Props.C19_bounded_work", "Props.C19_dead_absorbing", "Props.C19_failure_reported", "Props.C19_join_not_stuck",
                      "Props.C19_outcome_final", "Props.C19_panicked_pos", "Props.C19_terminates", "Props.C19_terminates_dead", "Props.C19_terminates_dying",
                      "Props.C19_terminates_verdict", "Props.C19_terminates_no_panic"],
